@@ -14,7 +14,7 @@
    injection) in the sequential and the parallel driver. *)
 From Coq Require Import List ZArith NArith Bool String.
 Import ListNotations.
-From RQ Require Import Base Apply Parser Quilt QuiltProofs FreshInode FaultProofs.
+From RQ Require Import Params Base Apply Parser Quilt QuiltProofs FreshInode FaultProofs.
 
 Theorem C18_fault_is_reported :
   forall cfg db g fs fs' r,
@@ -62,3 +62,7 @@ Example C18_each_fault_fires_and_is_reported :
 Proof. vm_compute. reflexivity. Qed.
 Example C18_after_the_last_operation_nothing_fires : fs_fired (fst (c18_run (Some 4%nat))) = false.
 Proof. vm_compute. reflexivity. Qed.
+
+(* read from the source on every run: cmd.rs records applied-patches after the driver returned, and only then *)
+Example C18_record_last_in_source : record_last_ok = true.
+Proof. reflexivity. Qed.
